@@ -255,6 +255,44 @@ func c11Run(ioType byte, fillerLen int, c c11Case, res *TaskResult) (v *Violatio
 				return v, fileBytes, startOff
 			}
 		}
+		// the same for a staged group: a refused FlushStaged appends nothing, and the records it was given are gone -
+		// the next group consists of its own records only
+		if c.Staged {
+			iorec.Before = func(op, path, path2 string, n int64) error {
+				if op == "write" || op == "rw.write" || op == "writeat" {
+					return errors.New("injected: the device refuses this write")
+				}
+				return nil
+			}
+			r1 := datafile.LogRecord{Key: []byte("g1"), Value: patternBytes(30, 13), BatchID: 99}
+			r2 := datafile.LogRecord{Key: []byte("g2"), Value: patternBytes(5, 14), BatchID: 99}
+			df.WriteStagedLogRecord(&r1, hdr)
+			df.WriteStagedLogRecord(&r2, hdr)
+			_, ferr := df.FlushStaged()
+			iorec.Before = saveBefore
+			if ferr == nil {
+				return fail("write-error-swallowed", "the device refused the write but FlushStaged returned nil"), fileBytes, startOff
+			}
+			if got := df.Size(); got != prevEnd {
+				return fail("logical-size", "after a refused FlushStaged: DataFile.Size() = %d, end of the last record = %d", got, prevEnd), fileBytes, startOff
+			}
+			r3 := datafile.LogRecord{Key: []byte("g3"), Value: patternBytes(7, 15), BatchID: 100}
+			df.WriteStagedLogRecord(&r3, hdr)
+			poss, err := df.FlushStaged()
+			if err != nil {
+				return fail("write-error", "FlushStaged after a refused one: %v", err), fileBytes, startOff
+			}
+			if len(poss) != 1 {
+				return fail("flush-count", "FlushStaged after a refused one returned %d positions for the 1 record staged since (the refused group was written after all)", len(poss)), fileBytes, startOff
+			}
+			written = append(written, writtenRec{rec: r3, pos: *poss[0]})
+			if v := checkPos(poss[0], "group after a refused FlushStaged"); v != nil {
+				return v, fileBytes, startOff
+			}
+			if v := verify(df, "after refused FlushStaged+group"); v != nil {
+				return v, fileBytes, startOff
+			}
+		}
 	}
 	if err := df.Close(); err != nil {
 		return fail("close", "Close: %v", err), fileBytes, startOff
